@@ -174,7 +174,17 @@ def stepLine (st : St) (line : String) : St × Option String :=
   | [] => (st, none)
   | _ => (st, some "bad-op")
 
-def main (lines : Array String) (_args : List String) : IO Unit := do
+/-- `driver c18 classes`: the model's classification of every dispatched request name, one per line:
+`<name hex> mutating=<0|1> debugclass=<0|1> floor=<least required role>`. -/
+def printClasses : IO Unit := do
+  for t in dispatched do
+    let b (x : Bool) : String := if x then "1" else "0"
+    IO.println s!"class {showHex (t.toUTF8.toList.map (·.toNat))} mutating={b (mutating t)} debugclass={b (debugClass.contains t)} floor={(requiredRole t .missing).name}"
+
+def main (lines : Array String) (args : List String) : IO Unit := do
+  if args = ["classes"] then
+    printClasses
+    return
   let mut st : St := {}
   for line in lines do
     let (st', out) := stepLine st line
